@@ -1,6 +1,7 @@
 package bt
 
 import (
+	"fmt"
 	"context"
 	"errors"
 
@@ -332,6 +333,9 @@ func VH_C12_Fund() {
 		switch vnondetLen("batch", 0, 3) {
 		case 0:
 			exhausted = true
+			if vnondetBool("wrapped-exhaustion") {
+				return nil, fmt.Errorf("wallet empty: %w", ErrNoUTXO) // errors.Is must still see the sentinel
+			}
 			return nil, ErrNoUTXO
 		case 1:
 			failed = true
